@@ -27,7 +27,7 @@ SoupStmt == {"say ", "foo ", "is ", "5 ", NLc, "if ", "else ", "while ", "takes 
 
 (* right-hand sides of `is` / `like`: where a poetic literal starts and where it does not (a literal word or a negative number first *)
 (* makes the right-hand side an ordinary expression, which must then be one to the end of the line)                                *)
-SoupPoetic == {"foo is ", "true ", "nothing ", "-", "- ", "5 ", ".5 ", "love ", "so ", ". ", "'s ", NLc, "rock foo like ", "plus ", "foo says "}
+SoupPoetic == {"foo is ", "true ", "nothing ", "-", "- ", "5 ", ".5 ", "love ", "so ", ". ", "'s ", NLc, "rock foo like ", "plus ", "foo says ", "not "}
 
 (* an `else` in every place: after an if that had none, after a loop, after a function, twice, first (the top-level loop must  *)
 (* consume it or reject it)                                                                                                      *)
